@@ -83,7 +83,7 @@ class Gen:
         if r < 0.76 + self.p['quit']: return b"quit\n"
         if r < 0.82: return R.choice([b"help\n", b"nodes\n", b"device\n", b"device t1\n", b"device u[0-3]\n", b"device t[1\n", b"device zz\n", b"Nodes x\n", b"device t[0-7],u[0-3]\n"])
         if r < 0.85: return R.choice([b"foo\n", b"\n", b"status\n", b"temp\n", b"beacon\n", b"status\x00 t1\n", b"on t[1-\n"])
-        if r < 0.85 + self.p['fatal']: return R.choice([b"on t[5-1]\n", b"status t[1-100000]\n", b"device t[3-1]\n", b"off t[a-b]\n"])
+        if r < 0.85 + self.p['fatal']: return R.choice([b"on t[5-1]\n", b"status t[1-100000]\n", b"device t[3-1]\n", b"off t[a-b]\n", b"status t[0-18446744073709551615]\n", b"on t[1-18446744073709551616]\n", b"device t[0-18446744073709551615]\n"])
         if r < 0.92: return ("%s %s\n%s %s\n" % (R.choice(COMS), self.target(), R.choice(COMS), self.target())).encode()
         return ("%s %s" % (R.choice(COMS), self.target())).encode()
 
